@@ -53,3 +53,15 @@ def set_del(s, x):
 
 def subset(a, b):
     return frozenset(a) <= frozenset(b)
+
+
+def ids_below(s, n):
+    return all(1 <= x < n for x in s)
+
+
+# sort names used in annotations of uninterpreted specification functions
+obj = object
+seqobj = list
+seqstr = list
+seqbytes = list
+intset = frozenset
